@@ -285,6 +285,26 @@ Definition init_order (kc : list Z) (ds : list decl) : result (list Z) :=
   | OutOfFuel => OutOfFuel
   end.
 
+(* ---- sorted_nodes 140-157 is a cached property: the order is computed at the first request and kept; a refused
+        request assigns nothing, so that refusal is not state - every later request refuses again.  `init_order` above is
+        therefore a function of the registrations; `request` spells the cache out so that this can be stated. ---- *)
+Record manager : Set := mkmanager { m_groups : list group; m_cache : option (list res) }.
+
+Definition producers_in (gs : list group) (o : list res) : list Z := map (prod_of gs) (filter is_init o).
+
+Definition request (m : manager) : manager * result (list Z) :=
+  match m_cache m with
+  | Some o => (m, Ok (producers_in (m_groups m) o))
+  | None => match kahn res_eqb (nodes_of (m_groups m)) (edges_of (m_groups m)) with
+            | Ok o => (mkmanager (m_groups m) (Some o), Ok (producers_in (m_groups m) o))
+            | Rejected e => (m, Rejected e)
+            | OutOfFuel => (m, OutOfFuel)
+            end
+  end.
+
+Fixpoint requests (n : nat) (m : manager) : list (result (list Z)) :=
+  match n with O => [] | S k => let '(m', r) := request m in r :: requests k m' end.
+
 (* ------------------------------------------------------------------------------------------------------------ *)
 (* the verified checker: does an observed call order respect the declared requirements?                          *)
 (* (soundness w.r.t. the declarative specification: ResourcesProofs.respects_sound)                             *)
